@@ -142,9 +142,15 @@ class _ROps:
         return simp(a - b)
 
     def mul(self, a, b):
+        r = core.cancel_mul(a, b)
+        if r is not None:
+            return r
         return simp(a * b)
 
     def div(self, a, b):
+        r = core.cancel_div(a, b)
+        if r is not None:
+            return r
         return simp(a / b)
 
     def neg(self, a):
@@ -852,7 +858,7 @@ def asarray(x, /, *, dtype=None, device=None, copy=None):
         else:
             out = _obj((len(parts),) + parts[0].a.shape)
             for i, p in enumerate(parts):
-                out[i] = p.a
+                out[i] = p.a if p.a.ndim else p.a[()]
             r = Array(out, pdt)
         return astype(r, dt) if dt is not None and dt != r.dt else r
     r = _coerce(x)
@@ -1047,9 +1053,11 @@ def positive(x, /):
     return asarray(x)
 
 
-def _ctx_ite(cond, a, b):
+def _ctx_ite(cond, a, b, expect=True):
     """ite(cond, a, b) simplified in the context of the current path: if one
-    side is infeasible the other is returned (no decision is recorded)."""
+    side is infeasible the other is returned (no decision is recorded).
+    `expect` says which value the condition usually has; the opposite is
+    tested for infeasibility first (unsat answers are the cheap ones)."""
     cond = simp(cond) if _is_term(cond) else cond
     if isinstance(cond, (builtins.bool, _np.bool_)):
         return a if cond else b
@@ -1060,12 +1068,20 @@ def _ctx_ite(cond, a, b):
     ctx = cur()
     if ctx.notes.get("no_ctx_simplify"):
         return OPS.ite(cond, a, b)
-    r1, _ = ctx.check([cond])
-    if r1 == "unsat":
-        return b
-    r2, _ = ctx.check([z3.Not(cond)])
-    if r2 == "unsat":
-        return a
+    if expect:
+        r2, _ = ctx.check([z3.Not(cond)])
+        if r2 == "unsat":
+            return a
+        r1, _ = ctx.check([cond])
+        if r1 == "unsat":
+            return b
+    else:
+        r1, _ = ctx.check([cond])
+        if r1 == "unsat":
+            return b
+        r2, _ = ctx.check([z3.Not(cond)])
+        if r2 == "unsat":
+            return a
     return OPS.ite(cond, a, b)
 
 
@@ -1090,10 +1106,10 @@ def clip(x, /, min=None, max=None):  # noqa: A002
     cells = _fcells(x)
     if min is not None:
         lo = _fcells(_coerce(min, _fdt(x)))
-        cells = _map(lambda c, l: _ctx_ite(OPS.lt(c, l), l, c), cells, lo)
+        cells = _map(lambda c, l: _ctx_ite(OPS.lt(c, l), l, c, expect=False), cells, lo)
     if max is not None:
         hi = _fcells(_coerce(max, _fdt(x)))
-        cells = _map(lambda c, h: _ctx_ite(OPS.gt(c, h), h, c), cells, hi)
+        cells = _map(lambda c, h: _ctx_ite(OPS.gt(c, h), h, c, expect=False), cells, hi)
     return Array(cells, _fdt(x))
 
 
